@@ -3,6 +3,7 @@ package drv
 import (
 	"bytes"
 	"encoding/json"
+	"errors"
 	"fmt"
 	"os"
 	"os/exec"
@@ -55,7 +56,7 @@ func sfChildRun(env *Env) error {
 	}
 	ce := newSfEnv(filepath.Dir(env.Out))
 	defer ce.cleanup()
-	return ReadScenarios(env.In, func(raw json.RawMessage) error {
+	err = ReadScenarios(env.In, func(raw json.RawMessage) error {
 		var sc sfScenario
 		if err := json.Unmarshal(raw, &sc); err != nil {
 			return err
@@ -79,15 +80,28 @@ func sfChildRun(env *Env) error {
 			buf.WriteByte('\n')
 		}
 		_, err := fp.Write(buf.Bytes())
+		if err == nil && sfRetire {
+			return errSfRetire
+		}
 		return err
 	})
+	if err == errSfRetire {
+		return nil
+	}
+	return err
 }
 
+// sfRetire is set by a scenario that found lal's goroutines in a state that would spoil the scenarios behind it (a
+// reader left spinning): the child ends after that scenario and the parent starts a fresh one for the rest of the batch.
+var sfRetire bool
+var errSfRetire = errors.New("retire")
+
 type sfBatchResult struct {
-	lines   []json.RawMessage // complete scenarios' events
-	died    bool
-	flight  int // index (in the batch) of the scenario in flight when the child died; -1 none
-	stderr  string
+	lines  []json.RawMessage // complete scenarios' events
+	done   int               // number of complete scenarios
+	died   bool
+	flight int // index (in the batch) of the scenario in flight when the child died; -1 none
+	stderr string
 }
 
 func sfSpawn(dir string, tag string, batch []json.RawMessage, seed int64) sfBatchResult {
@@ -132,6 +146,7 @@ func sfSpawn(dir string, tag string, batch []json.RawMessage, seed int64) sfBatc
 			cur = append(cur, append([]byte{}, l...))
 		}
 	}
+	res.done = ended + 1
 	if err != nil {
 		res.died = true
 		if begun > ended {
@@ -228,6 +243,10 @@ func surfacesDriver(env *Env) error {
 					r := sfSpawn(dir, fmt.Sprintf("w%d-j%d-r%d", w, jb.idx, round), rest, env.Seed)
 					out = append(out, r.lines...)
 					if !r.died {
+						if r.done > 0 && r.done < len(rest) {
+							rest = rest[r.done:] // the child retired after r.done scenarios (see sfRetire)
+							continue
+						}
 						break
 					}
 					k := r.flight
